@@ -14,14 +14,15 @@ RULES = []
 
 
 class Rule:
-    def __init__(self, rid, prop, floor, text, fn, configs=None, also=()):
+    def __init__(self, rid, prop, floor, text, fn, configs=None, also=(), tiers=None):
         self.id, self.prop, self.floor, self.text, self.fn, self.configs = rid, prop, floor, text, fn, configs
         self.also = tuple(also)  # other properties that also report this rule's obligations
+        self.tiers = tiers       # None = every tier
 
 
-def rule(rid, prop, floor, text, configs=None, also=()):
+def rule(rid, prop, floor, text, configs=None, also=(), tiers=None):
     def deco(fn):
-        RULES.append(Rule(rid, prop, floor, text, fn, configs, also))
+        RULES.append(Rule(rid, prop, floor, text, fn, configs, also, tiers))
         return fn
     return deco
 
@@ -114,7 +115,7 @@ def load_known(path=None):
 def run_property(prop, tier="quick", seed=0, out=sys.stdout):
     t0 = time.time()
     configs = exporter.QUICK if tier == "quick" else exporter.THOROUGH
-    rules = [r for r in RULES if r.prop == prop or prop in r.also]
+    rules = [r for r in RULES if (r.prop == prop or prop in r.also) and (r.tiers is None or tier in r.tiers)]
     if not rules:
         out.write("BROKEN: no rules registered for %s\n" % prop)
         return 2
